@@ -458,7 +458,12 @@ class EventBus:
         if event_pattern == '*':
             event_key = '*'
         elif isinstance(event_pattern, type) and issubclass(event_pattern, BaseEvent):  # pyright: ignore[reportUnnecessaryIsInstance]
-            event_key = event_pattern.__name__  # pyright: ignore[reportUnknownMemberType, reportUnknownVariableType]
+            # events are looked up under their event_type: the class name, unless the class declares its own default
+            declared_event_type = event_pattern.model_fields['event_type'].default
+            if isinstance(declared_event_type, str) and declared_event_type != 'UndefinedEvent':
+                event_key = declared_event_type
+            else:
+                event_key = event_pattern.__name__  # pyright: ignore[reportUnknownMemberType, reportUnknownVariableType]
         else:
             event_key = str(event_pattern)
 
@@ -678,7 +683,14 @@ class EventBus:
                 return await future
         finally:
             # Clean up handler
-            event_key: str = event_type.__name__ if isinstance(event_type, type) else str(event_type)  # pyright: ignore[reportUnknownMemberType, reportPartialTypeErrors]
+            # same key derivation as on(): a class that declares its own event_type default is registered under it
+            event_key: str = str(event_type)
+            if isinstance(event_type, type):
+                declared_event_type = event_type.model_fields['event_type'].default
+                if isinstance(declared_event_type, str) and declared_event_type != 'UndefinedEvent':
+                    event_key = declared_event_type
+                else:
+                    event_key = event_type.__name__  # pyright: ignore[reportUnknownMemberType]
             if event_key in self.handlers and notify_expect_handler in self.handlers[event_key]:
                 self.handlers[event_key].remove(notify_expect_handler)
 
